@@ -6,7 +6,9 @@ import io
 import itertools
 from typing import Any, Dict, List, Optional, Tuple
 
-from ..core import Ctx
+from pathlib import Path
+
+from ..core import Ctx, REPO
 from ..gen.project import Gen, Knobs, Unit
 
 THEOREMS = ["Schedule.process_terminates_drains", "Schedule.state_order_independent", "Schedule.one_bad_file",
@@ -16,7 +18,9 @@ RULE = ("generated projects (cross-module bases, star imports, __all__ re-export
         "order; sampled beyond 120 orders). (a) the real processModule/getProcessedModule call log of every order is "
         "compared with the Lean Schedule model, whose import lists are read off ONE reference run; (b) the canonical dump "
         "of the documented objects (names, kinds, docstrings, resolved bases, linearisations, re-export locations) is "
-        "compared across orders (direct oracle). Non-trivial = project with an import edge between siblings and at least "
+        "compared across orders (direct oracle); (c) real packages (pydoctor's test packages alone and as pairs of roots, "
+        "standard-library packages, pydoctor itself in the thorough tier) are analysed under shuffled depth-first orders and their "
+        "canonical dumps compared. Orders are the reachable ones: depth-first, package first, siblings and roots in any order. Non-trivial = project with an import edge between siblings and at least "
         "two distinct orders.")
 ASSUMPTIONS = ["which modules a body asks for (getProcessedModule targets) is a function of the source text alone; read from a reference run",
                "for projects with import cycles only the class hierarchy (bases, linearisations) is required to agree, as the property says"]
@@ -64,9 +68,12 @@ class SchedRec:
         self._rp = model.Documentable.reparent
         self.module_moved = False
 
+        self.moves: List[Tuple[str, str]] = []
+
         def reparent(obj, new_parent, new_name):
             if isinstance(obj, model.Module):
                 rec.module_moved = True
+            rec.moves.append((origin(obj), new_parent.fullName()))
             return rec._rp(obj, new_parent, new_name)
         model.Documentable.reparent = reparent
 
@@ -112,9 +119,46 @@ def valid_orders(units: List[Unit], rng, limit: int) -> List[List[int]]:
     idx = {u.qname: i for i, u in enumerate(units)}
     parent = [idx.get(u.parent) if u.parent else None for u in units]
 
+    children: Dict[Optional[int], List[int]] = {}
+    for i in range(n):
+        children.setdefault(parent[i], []).append(i)
+
+    def size(i):
+        return 1 + sum(size(c) for c in children.get(i, []))
+
     def ok(perm):
+        # the builder adds a package, then everything below it, before the next sibling: a reachable order is a
+        # depth-first order of the module tree (package first, its subtree contiguous)
         pos = {m: k for k, m in enumerate(perm)}
-        return all(parent[i] is None or pos[parent[i]] < pos[i] for i in range(n))
+        if not all(parent[i] is None or pos[parent[i]] < pos[i] for i in range(n)):
+            return False
+        for i in range(n):
+            sz = size(i)
+            if sz > 1:
+                sub = set()
+                todo = [i]
+                while todo:
+                    x = todo.pop()
+                    sub.add(x)
+                    todo += children.get(x, [])
+                if set(perm[pos[i]:pos[i] + sz]) != sub:
+                    return False
+        return True
+
+    def dfs_shuffle():
+        out: List[int] = []
+
+        def go(k):
+            out.append(k)
+            cs = list(children.get(k, []))
+            rng.shuffle(cs)
+            for c in cs:
+                go(c)
+        roots = list(children.get(None, []))
+        rng.shuffle(roots)
+        for r in roots:
+            go(r)
+        return out
     if n <= 6:
         perms = [list(p) for p in itertools.permutations(range(n)) if ok(p)]
     else:
@@ -122,9 +166,8 @@ def valid_orders(units: List[Unit], rng, limit: int) -> List[List[int]]:
         tries = 0
         while len(perms) < limit * 2 and tries < limit * 40:
             tries += 1
-            p = list(range(n))
-            rng.shuffle(p)
-            if ok(p) and p not in perms:
+            p = dfs_shuffle()
+            if p not in perms:
                 perms.append(p)
         ident = list(range(n))
         if ident not in perms:
@@ -139,6 +182,103 @@ def valid_orders(units: List[Unit], rng, limit: int) -> List[List[int]]:
 def origin(o) -> str:
     """definition site of an object: qualified name at creation + line (stable under re-export moves)"""
     return "%s@%s" % (getattr(o, "_verif_orig", o.fullName()), getattr(o, "linenumber", 0))
+
+
+def real_corpus(quick: bool) -> List[Tuple[str, List[Path]]]:
+    """real packages: pydoctor's own test packages (alone and in pairs of roots), a few standard-library packages,
+    and (thorough) pydoctor itself"""
+    import sysconfig
+    tp = REPO / "pydoctor" / "test" / "testpackages"
+    out: List[Tuple[str, List[Path]]] = []
+    dirs = [d for d in sorted(tp.iterdir()) if d.is_dir() and not d.name.startswith("c_module") and (d / "__init__.py").exists()]
+    for d in dirs:
+        out.append(("testpackage:" + d.name, [d]))
+    for a, b in (("allgames", "basic"), ("cyclic_imports", "cyclic_imports_base_classes"), ("reparented_module", "reparenting_follows_aliases")):
+        if (tp / a).is_dir() and (tp / b).is_dir():
+            out.append(("testpackages:%s+%s" % (a, b), [tp / a, tp / b]))
+    std = Path(sysconfig.get_paths()["stdlib"])
+    for n in (["json", "logging", "wsgiref"] if quick else ["json", "logging", "wsgiref", "email", "unittest", "xml", "importlib", "concurrent", "urllib", "http"]):
+        if (std / n).is_dir():
+            out.append(("stdlib:" + n, [std / n]))
+    if not quick:
+        out.append(("stdlib:json+logging+html", [std / "json", std / "logging", std / "html"]))
+        out.append(("pydoctor", [REPO / "pydoctor"]))
+    return out
+
+
+def build_real(paths: List[Path], rng, shuffle: bool):
+    """the real builder on real directories; the processing order is a depth-first order with shuffled siblings/roots"""
+    from pydoctor import model
+    s = model.System()
+    s.options.verbosity = -9
+    b = s.systemBuilder(s)
+    out = io.StringIO()
+    with contextlib.redirect_stdout(out):
+        for p in paths:
+            b.addModule(p)
+        mods = list(s.unprocessed_modules)
+        order = list(range(len(mods)))
+        if shuffle:
+            idx = {id(m): i for i, m in enumerate(mods)}
+            children: Dict[Optional[int], List[int]] = {}
+            for i, m in enumerate(mods):
+                children.setdefault(idx.get(id(m.parent)) if m.parent is not None else None, []).append(i)
+            order = []
+
+            def go(k):
+                order.append(k)
+                cs = list(children.get(k, []))
+                rng.shuffle(cs)
+                for c in cs:
+                    go(c)
+            roots = list(children.get(None, []))
+            rng.shuffle(roots)
+            for r in roots:
+                go(r)
+            s.unprocessed_modules[:] = [mods[i] for i in order]
+        b.buildModules()
+    return s, [m.fullName() for m in (mods[i] for i in order)]
+
+
+def import_cycle_real(system) -> bool:
+    """does the real package have an import cycle? read off the sources with ast (module-level and nested imports)"""
+    import ast as _ast
+    from pydoctor import model
+    mods = {m.fullName(): m for m in system.allobjects.values() if isinstance(m, model.Module)}
+    edges: Dict[str, set] = {}
+    for q, m in mods.items():
+        if m.source_path is None or not str(m.source_path).endswith(".py"):
+            continue
+        try:
+            tree = _ast.parse(Path(m.source_path).read_bytes())
+        except Exception:
+            continue
+        es = edges.setdefault(q, set())
+        pkg = q if isinstance(m, model.Package) else q.rsplit(".", 1)[0] if "." in q else ""
+        for node in _ast.walk(tree):
+            if isinstance(node, _ast.ImportFrom):
+                base = node.module or ""
+                if node.level:
+                    parts = pkg.split(".") if pkg else []
+                    parts = parts[:len(parts) - (node.level - 1)] if node.level > 1 else parts
+                    base = ".".join(parts + ([node.module] if node.module else []))
+                if base in mods:
+                    es.add(base)
+                for a in node.names:
+                    if base + "." + a.name in mods:
+                        es.add(base + "." + a.name)
+    color: Dict[str, int] = {}
+
+    def dfs(u):
+        color[u] = 1
+        for v in edges.get(u, ()):
+            if color.get(v) == 1 or (color.get(v) is None and dfs(v)):
+                return True
+        color[u] = 2
+        return False
+    import sys
+    sys.setrecursionlimit(max(sys.getrecursionlimit(), 5000))
+    return any(color.get(u) is None and dfs(u) for u in list(edges))
 
 
 def canon(system, hierarchy_only: bool) -> Dict[str, Any]:
@@ -403,6 +543,7 @@ def run(ctx: Ctx) -> None:
         ords = valid_orders(units, ctx.rng, limit)
         ref = None
         inh_cyc = False
+        dests: Dict[str, set] = {}
         reexp = any("__all__" in u.source and "import" in u.source for u in units)
         for od in ords:
             rec = SchedRec()
@@ -412,6 +553,8 @@ def run(ctx: Ctx) -> None:
                 except Exception as e:
                     ctx.fail("analysis-crash:" + type(e).__name__, {"units": src, "order": od}, f"{type(e).__name__}: {e}")
                     continue
+            for og, dst in rec.moves:
+                dests.setdefault(og, set()).add(dst)
             nontriv = any(imports[k] for k in imports) and len(ords) > 1
             ctx.case(repr((sorted(src.items()), od)), nontriv,
                      {"modules": list(src), "order": od, "log": rec.log[:30]} if nontriv and len(ctx.samples) < 2 else None)
@@ -458,8 +601,57 @@ def run(ctx: Ctx) -> None:
                     sig = "bases-differs"
                 pending.append((i, "order-dependent:%s:%s" % (tag, sig), {"units": src, "order": od, "reference_order": ref[0]},
                                 f"orders {ref[0]} and {od}: {what}"))
+        if any(len(v) > 1 for v in dests.values()) and any(pf[0] == i for pf in pending):
+            # some object was moved to two different modules (over all orders): it has more than one re-exporter
+            # (possibly through a chain of re-exports), which the property leaves out
+            pending = [pf for pf in pending if pf[0] != i]
+            ctx.count("oracle-skipped:object-with-several-reexporters")
     for _i, sig, inp, what in pending:
         ctx.fail(sig, inp, what)
+    # real packages under reachable orders (direct oracle only: the Lean model's import lists come from generated projects)
+    norders = 4 if ctx.quick else 12
+    for label, paths in real_corpus(ctx.quick):
+        if label == "pydoctor":
+            norders_here = 3
+        else:
+            norders_here = norders
+        try:
+            with SchedRec():
+                s0, names0 = build_real(paths, ctx.rng, False)
+        except Exception as e:
+            ctx.fail("real-package-crash:" + type(e).__name__, {"package": label, "order": None}, f"{label}: {type(e).__name__}: {e}")
+            continue
+        cyc = import_cycle_real(s0)
+        if inheritance_cycle(s0):
+            ctx.count("real:oracle-skipped:cyclic-inheritance")
+            continue
+        ref = canon(s0, hierarchy_only=cyc)
+        ctx.count("real-packages")
+        ctx.count("real-packages:cyclic" if cyc else "real-packages:acyclic")
+        seen = {tuple(names0)}
+        for k in range(norders_here):
+            try:
+                with SchedRec():
+                    s, names = build_real(paths, ctx.rng, True)
+            except Exception as e:
+                ctx.fail("real-package-crash:" + type(e).__name__, {"package": label, "order": names0}, f"{label}: {type(e).__name__}: {e}")
+                break
+            if tuple(names) in seen:
+                continue
+            seen.add(tuple(names))
+            ctx.case(repr((label, names)), True, {"package": label, "order": names[:12]} if len(ctx.samples) < 3 else None)
+            ctx.count("real-orders")
+            if inheritance_cycle(s):
+                ctx.count("real:oracle-skipped:cyclic-inheritance")
+                break
+            c = canon(s, hierarchy_only=cyc)
+            if c != ref:
+                sig, what = diff_sig(ref, c, moved_origins(s) | moved_origins(s0))
+                # a base imported from the defining module of a re-exported (moved) class: the open finding, seen on a real package
+                full = "order-dependent:reexport:bases-differs" if sig == "moved-base-unresolved" else "order-dependent:real:%s:%s" % (label, sig)
+                ctx.fail(full, {"package": label, "paths": [str(p) for p in paths], "order": names, "reference_order": names0},
+                         f"{label}: default order vs {names[:8]}...: {what}")
+                break
     if ctx.model_ok and reqs:
         outs = ctx.driver.run_parallel(reqs)
         for rq, mo, io_, p in zip(reqs, outs, impls, pay):
